@@ -23,6 +23,7 @@ def read_prefix(path, data, n, **kw):
 def correspondence(ctx):
     rng = ctx.rng
     drv = common.Driver("drv_c19")
+    c05.ensure_tables(ctx, "drv_c19", "Bermuda.Properties.C19")
     n_small = 400 if ctx.thorough else 24
     n_big = 8 if ctx.thorough else 2
     n_gz = 40 if ctx.thorough else 6
@@ -114,7 +115,7 @@ RULE = ("small triangles over the C05 lattice (all three cell classes, 0-3 slice
 
 if __name__ == "__main__":
     common.run_check("C19", module="Bermuda.Properties.C19", driver_targets=["drv_c19"],
-                     correspondence=correspondence, level="translation_validation",
+                     correspondence=correspondence, level="proof",
                      rule=RULE,
                      assumptions=c05.ASSUMPTIONS + [
                          "a crash leaves a strict prefix of the bytes to_binary would have written (no reordering of writes)",
